@@ -19,12 +19,39 @@ def prune_rule(rep, prog):
     st = State()
     ploc = st.new_heap(AdtVal("rsadsb_common::Airplanes", 0, [sum_tracker.new_map()], vname="Airplanes"))
     ft = IntVal(IntTy(64, False), tags=frozenset([("name", "filter_time")]))
-    outs = ip.run_function(fn, [RefVal(ploc, True), ft], st)
+    from ..cfg import cfg_of
+    from ..ai.interp import Inconclusive
+    try:
+        outs = ip.run_function(fn, [RefVal(ploc, True), ft], st)
+    except Inconclusive:
+        if not cfg_of(fn).back_edges():
+            raise
+        outs = []
     seen = set()
     n = 0
+    loop_form = False
+    if cfg_of(fn).back_edges() and not any(e["kind"] == "retain_result" for o in outs for e in o.events):
+        # expiry written as an explicit loop over the tracked addresses instead of retain(): one arbitrary iteration is analysed (everything
+        # the loop assigns forgotten at its head); a record that the iteration looks up is kept unless the iteration removes that same key
+        loop_form = True
+        ip = entry.new_interp(prog, max_seconds=60, merge_returns=False, loop_once=True)
+        st = State()
+        ploc = st.new_heap(AdtVal("rsadsb_common::Airplanes", 0, [sum_tracker.new_map()], vname="Airplanes"))
+        outs = ip.run_function(fn, [RefVal(ploc, True), ft], st)
+        rep.info("prune is a loop over the tracked addresses (no retain()): analysed as one arbitrary iteration")
     for o in outs:
         res = [e for e in o.events if e["kind"] == "retain_result"]
         muts = [e for e in o.events if e["kind"] in ("map_mutation", "map_entry")]
+        if loop_form:
+            gets = [e for e in o.events if e["kind"] == "map_get" and e.get("found")]
+            rem = [e for e in muts if e.get("method") == "remove"]
+            other = [e for e in muts if e.get("method") != "remove"]
+            if other:
+                rep.violation("R1", "prune:other-mutation", "prune mutates the map through %s" % other[0].get("method", other[0]["kind"]))
+            if rem and (not gets or any(r_.get("key_loc") is None or r_.get("key_loc") != gets[-1].get("key_loc") for r_ in rem)):
+                rep.violation("R1", "prune:removes-other-key", "prune removes a key other than the one whose record it examined in that iteration")
+            muts = []
+            res = [{"value": IntVal.const(IntTy(8, False), 0 if rem else 1)}] if gets else []
         if muts:
             rep.violation("R1", "prune:other-mutation", "prune mutates the map through %s besides retain()" % muts[0].get("method", muts[0]["kind"]))
         for r in res:
